@@ -47,8 +47,15 @@ def _recover(draw):
             lad.append(v)
             v *= draw(st.floats(2.5, 4.0))
     # autofluorescence: at least five populations above 3x
+    edge = draw(st.sampled_from([False, False, False, True]))
+    if edge and draw(st.booleans()):
+        lad = lad[-5:]                  # exactly the five populations the precondition asks for
     cap = sorted(lad)[-5] / 3.0
-    if draw(st.sampled_from([True, False, False, False, False])) or cap < 1.0:
+    if edge and cap >= 2.0:
+        # the edge of the precondition: autofluorescence close to the largest value it allows, large intercept
+        auto = min(5000.0, cap) * draw(st.floats(0.1, 1.0))
+        b = draw(st.floats(5.0, 7.0))
+    elif draw(st.sampled_from([True, False, False, False, False])) or cap < 1.0:
         auto = 0.0
     else:
         auto = math.exp(draw(st.floats(0.0, math.log(min(5000.0, cap)))))
